@@ -18,11 +18,9 @@ Proof. exact build_apply_is_eval. Qed.
 Print Assumptions C16_build_apply_is_eval.
 
 (* 1b. an expression without leaves folds to the scalar that the arithmetic gives *)
-Theorem C16_constant_expression_folds : forall (rho : nat -> list R) (n : nat),
-  (forall i, length (rho i) = n) ->
-  forall (e : oexpr R) (q : R),
+Theorem C16_constant_expression_folds : forall (e : oexpr R) (q : R),
   build ROps e = Ok (VScal q) -> forall env, evalpt ROps e env = q.
-Proof. exact build_scalar_is_eval. Qed.
+Proof. exact constant_expression_folds. Qed.
 Print Assumptions C16_constant_expression_folds.
 
 (* 2. rejection: building fails exactly on the syntactic predicate [rejects] (any number type) *)
@@ -44,7 +42,11 @@ Theorem C16_build_accepts_with_kind : forall (T : Type) (O : NumOps T) (e : oexp
 Proof. exact @build_accepts_iff. Qed.
 Print Assumptions C16_build_accepts_with_kind.
 
-(* 3. statistics of the composite = statistics of the combined per-sample values *)
+(* 3. statistics of the composite = statistics of the combined per-sample values.
+      Note: [stats_of] is total (for a batch of one value it divides by n-1 = 0, mirroring torch's nan); this
+      statement equates two evaluations of that same function, so it needs no guard; the closed forms that do
+      depend on the division carry their guards: 3b has 2 <= length, 3c has 1 <= n.  [pointwise] reads the leaf
+      lists with [nth] only at indices < n, which are in range by the hypothesis on the lengths. *)
 Theorem C16_statistics_of_composite : forall (rho : nat -> list R) (n : nat),
   (forall i, length (rho i) = n) ->
   forall (e : oexpr R) (o : obs R),
@@ -82,7 +84,8 @@ Theorem C16_built_objects_apply_to_batches : forall (T : Type) (O : NumOps T) (e
 Proof. exact built_objects_apply_to_batches. Qed.
 Print Assumptions C16_built_objects_apply_to_batches.
 
-(* 5. what each operator builds (the fields .left / .right of the real objects) *)
+(* 5. what each operator builds (the fields .left / .right of the real objects)
+      (* definitional: computation of [build] on the ten basic forms; restates the model *) *)
 Theorem C16_operator_shapes : forall (T : Type) (O : NumOps T) (i j : nat) (q : T),
   build O (Neg (Leaf i)) = Ok (VObs (ProdO (minus_one O) (Prim i))) /\
   build O (Sub (Leaf i) (Leaf j)) = Ok (VObs (SumO (Obs (Prim i)) (Obs (ProdO (minus_one O) (Prim j))))) /\
@@ -97,7 +100,7 @@ Theorem C16_operator_shapes : forall (T : Type) (O : NumOps T) (i j : nat) (q : 
 Proof. exact operator_shapes. Qed.
 Print Assumptions C16_operator_shapes.
 
-(* non-vacuity of the hypotheses used above *)
+(* non-vacuity of the hypotheses used above (* definitional: a computed example *) *)
 Theorem C16_hypotheses_satisfiable :
   let e : oexpr R := Sub (Mul (Const 2) (Leaf 0)) (Add (Leaf 1) (Const 3)) in
   let rho : nat -> list R := fun i => match i with O => [1; 2; 4] | _ => [3; 5; 6] end in
